@@ -4,8 +4,12 @@
    Vocabulary (Csv.v / CsvProofs.v):
      gs l                     a good() std::istream holding the bytes l
      comment_block cs         the lines "#" ++ c ++ "\n" for c in cs (any lengths)
-     row_ok sep cs line       comments and line contain no newline, line does not start with '#', an empty line is not
-                              preceded by comments, and EVERY FIELD of `split sep line` IS SHORTER THAN bufmax = 64
+     row_wf cs line           comments and line contain no newline, line does not start with '#', an empty line is not
+                              preceded by comments.  NO bound on field lengths.
+     fitsb fs                 every field is shorter than bufmax = 64 bytes, except that the field that ends the line
+                              (no separator behind it) may be exactly 64 bytes long
+     row_ok sep cs line       row_wf cs line /\ fitsb (split sep line) = true
+     spec_row64               = spec_row when fitsb (split sep line), otherwise None (over-long token = malformed row)
      spec_row parse sep line  split at sep (a separator at the very end opens no field), every field = optional '+'
                               followed by a number that extends over the whole field; None = malformed row
      read_row_std_vector / read_row_impl n     the model of the 64-byte chunked reader on the stream model
@@ -15,8 +19,66 @@ From Coq Require Import List Ascii ZArith Bool Arith.
 From Alpaqa Require Import Csv CsvProofs.
 Import ListNotations.
 
-(* (1) chunked reader = row specification, for every row length, any comments, any separator outside the numeric
-       alphabet; errors coincide; on success the stream is exactly at the next row *)
+(* (0) MAIN, all field lengths: for every well-formed row the chunked reader equals the row specification with the
+       over-long-token rule; errors coincide; success leaves the stream exactly at the next row, an error leaves the
+       row's newline and everything behind it in the stream *)
+Theorem C17_chunked_equals_spec64_vector :
+  forall (V : Type) (parse : list ascii -> option (V * nat)) (sep : ascii) (numch : ascii -> bool),
+  (forall l v k, parse l = Some (v, k) -> k <= length l) ->
+  (forall a c b, numch c = false -> parse (a ++ c :: b) = parse a) ->
+  numch sep = false -> numch plus = true ->
+  forall cs line t, row_wf cs line ->
+  match spec_row64 parse sep line with
+  | Some vs => read_row_std_vector parse sep (gs (comment_block cs ++ line ++ nl :: t)) = (gs t, inr vs)
+  | None => exists e s', read_row_std_vector parse sep (gs (comment_block cs ++ line ++ nl :: t)) = (s', inl e) /\ Tail s' t
+  end.
+Proof. exact (@read_row_std_vector_spec64). Qed.
+Print Assumptions C17_chunked_equals_spec64_vector.
+
+Theorem C17_chunked_equals_spec64_fixed :
+  forall (V : Type) (parse : list ascii -> option (V * nat)) (sep : ascii) (numch : ascii -> bool),
+  (forall l v k, parse l = Some (v, k) -> k <= length l) ->
+  (forall a c b, numch c = false -> parse (a ++ c :: b) = parse a) ->
+  parse [] = None ->
+  numch sep = false -> numch plus = true ->
+  forall n cs line t, row_wf cs line ->
+  match spec_row64_n parse sep n line with
+  | Some vs => read_row_impl parse sep n (gs (comment_block cs ++ line ++ nl :: t)) = (gs t, inr vs)
+  | None => exists e s', read_row_impl parse sep n (gs (comment_block cs ++ line ++ nl :: t)) = (s', inl e) /\ Tail s' t
+  end.
+Proof. exact (@read_row_impl_spec64). Qed.
+Print Assumptions C17_chunked_equals_spec64_fixed.
+
+(* over-long token: rejected with a read error by both readers (the row's newline is still in the stream) *)
+Theorem C17_overlong_token_rejected :
+  forall (V : Type) (parse : list ascii -> option (V * nat)) (sep : ascii) (numch : ascii -> bool),
+  (forall l v k, parse l = Some (v, k) -> k <= length l) ->
+  (forall a c b, numch c = false -> parse (a ++ c :: b) = parse a) ->
+  parse [] = None ->
+  numch sep = false -> numch plus = true ->
+  forall cs line t, row_wf cs line -> fitsb (split sep line) = false ->
+  (exists e s', read_row_std_vector parse sep (gs (comment_block cs ++ line ++ nl :: t)) = (s', inl e) /\ Tail s' t) /\
+  (forall n, exists e s', read_row_impl parse sep n (gs (comment_block cs ++ line ++ nl :: t)) = (s', inl e) /\ Tail s' t).
+Proof. exact (@overlong_rejected). Qed.
+Print Assumptions C17_overlong_token_rejected.
+
+(* never silently altered numbers: whatever the field lengths, numbers that ARE returned are the numbers the row denotes *)
+Theorem C17_no_silent_alteration :
+  forall (V : Type) (parse : list ascii -> option (V * nat)) (sep : ascii) (numch : ascii -> bool),
+  (forall l v k, parse l = Some (v, k) -> k <= length l) ->
+  (forall a c b, numch c = false -> parse (a ++ c :: b) = parse a) ->
+  parse [] = None ->
+  numch sep = false -> numch plus = true ->
+  forall cs line t, row_wf cs line ->
+  (forall s' vs, read_row_std_vector parse sep (gs (comment_block cs ++ line ++ nl :: t)) = (s', inr vs) ->
+     spec_row parse sep line = Some vs /\ s' = gs t) /\
+  (forall n s' vs, read_row_impl parse sep n (gs (comment_block cs ++ line ++ nl :: t)) = (s', inr vs) ->
+     spec_row parse sep line = Some vs /\ length vs = n /\ s' = gs t).
+Proof. exact (@no_silent_alteration). Qed.
+Print Assumptions C17_no_silent_alteration.
+
+(* (1) corollary: when every field fits the window the specification is plain "split at sep, parse every field completely",
+       for every row length, any comments, any separator outside the numeric alphabet *)
 Theorem C17_chunked_equals_spec_vector :
   forall (V : Type) (parse : list ascii -> option (V * nat)) (sep : ascii) (numch : ascii -> bool),
   (forall l v k, parse l = Some (v, k) -> k <= length l) ->
@@ -53,7 +115,7 @@ Theorem C17_next_row_unaffected :
   (forall a c b, numch c = false -> parse (a ++ c :: b) = parse a) ->
   parse [] = None ->
   numch sep = false -> numch plus = true ->
-  forall cs line t, row_ok sep cs line ->
+  forall cs line t, row_wf cs line ->
   (forall s' r, read_row_std_vector parse sep (gs (comment_block cs ++ line ++ nl :: t)) = (s', r) ->
      match r with inr _ => s' = gs t | inl _ => rest (resync s') = t end) /\
   (forall n s' r, read_row_impl parse sep n (gs (comment_block cs ++ line ++ nl :: t)) = (s', r) ->
@@ -89,37 +151,36 @@ Proof. exact (conj (parse_Z_bound int64_bound) (conj (parse_Z_local int64_bound)
 Print Assumptions C17_int64_parser_meets_hypotheses.
 
 Theorem C17_int64_reader_equals_spec :
-  forall sep, int_numch sep = false -> forall n cs line t, row_ok sep cs line ->
-  match spec_row parse_int64 sep line with
+  forall sep, int_numch sep = false -> forall n cs line t, row_wf cs line ->
+  match spec_row64 parse_int64 sep line with
   | Some vs => read_row_std_vector parse_int64 sep (gs (comment_block cs ++ line ++ nl :: t)) = (gs t, inr vs)
   | None => exists e s', read_row_std_vector parse_int64 sep (gs (comment_block cs ++ line ++ nl :: t)) = (s', inl e) /\ Tail s' t
   end /\
-  match spec_row_n parse_int64 sep n line with
+  match spec_row64_n parse_int64 sep n line with
   | Some vs => read_row_impl parse_int64 sep n (gs (comment_block cs ++ line ++ nl :: t)) = (gs t, inr vs)
   | None => exists e s', read_row_impl parse_int64 sep n (gs (comment_block cs ++ line ++ nl :: t)) = (s', inl e) /\ Tail s' t
   end.
 Proof.
   exact (fun sep Hs n cs line t Hr =>
-    conj (read_row_std_vector_spec parse_int64 sep int_numch (parse_Z_bound int64_bound) (parse_Z_local int64_bound) Hs int_numch_plus cs line t Hr)
-         (read_row_impl_spec parse_int64 sep int_numch (parse_Z_bound int64_bound) (parse_Z_local int64_bound) (parse_Z_nil int64_bound) Hs int_numch_plus n cs line t Hr)).
+    conj (read_row_std_vector_spec64 parse_int64 sep int_numch (parse_Z_bound int64_bound) (parse_Z_local int64_bound) Hs int_numch_plus cs line t Hr)
+         (read_row_impl_spec64 parse_int64 sep int_numch (parse_Z_bound int64_bound) (parse_Z_local int64_bound) (parse_Z_nil int64_bound) Hs int_numch_plus n cs line t Hr)).
 Qed.
 Print Assumptions C17_int64_reader_equals_spec.
 
-(* (5) the hypothesis "every field shorter than 64 bytes" cannot be dropped: the faithful model returns silently
-       altered numbers for "1" followed by 70 zeros (confirmed on the implementation: [1e63, 0]) *)
-Theorem C17_overlong_token_refuted :
-  exists (line t : list ascii) (vs : list Z),
-    ~ In nl line /\ (forall r, line <> hash :: r) /\
-    read_row_std_vector parse_bigint comma (gs (line ++ nl :: t)) = (gs t, inr vs) /\
-    spec_row parse_bigint comma line <> Some vs.
-Proof. exact overlong_token_refuted_lemma. Qed.
-Print Assumptions C17_overlong_token_refuted.
+(* (5) the former defect, replayed on the model of the fixed code: "1" followed by 70 zeros (was [1e63, 0]) is a read
+       error for both readers; and the exact boundary of the rule *)
+Theorem C17_overlong_token_witness_rejected :
+  read_row_std_vector parse_bigint comma (gs (overlong_line ++ [nl])) = (gs (repeat "0"%char 7 ++ [nl]), inl ETooLong) /\
+  read_row_impl parse_bigint comma 2 (gs (overlong_line ++ [nl])) = (gs (repeat "0"%char 7 ++ [nl]), inl ETooLong) /\
+  spec_row64 parse_bigint comma overlong_line = None.
+Proof. exact overlong_token_now_rejected. Qed.
+Print Assumptions C17_overlong_token_witness_rejected.
 
-Theorem C17_overlong_token_witness :
-  read_row_std_vector parse_bigint comma (gs (overlong_line ++ [nl])) = (gs [], inr [10 ^ 63; 0]%Z) /\
-  spec_row parse_bigint comma overlong_line = Some [10 ^ 70]%Z.
-Proof. exact overlong_token_split. Qed.
-Print Assumptions C17_overlong_token_witness.
+Theorem C17_window_filling_field :
+  read_row_std_vector parse_bigint comma (gs (repeat "0"%char 63 ++ ["7"%char; nl])) = (gs [], inr [7%Z]) /\
+  (exists s', read_row_std_vector parse_bigint comma (gs (repeat "0"%char 63 ++ ["7"%char; comma; "1"%char; nl])) = (s', inl ETooLong)).
+Proof. exact window_filling_field. Qed.
+Print Assumptions C17_window_filling_field.
 
 (* (6) documented deviation (a read error, never altered numbers): an empty row directly behind a comment line *)
 Theorem C17_empty_row_after_comment_rejected :
